@@ -21,9 +21,17 @@ macro_rules! constr {
 }
 
 pub fn constr(index: u64, fields: Vec<PlutusData>) -> PlutusData {
+    // Plutus Data convention: alternatives 0-6 use tags 121-127, alternatives 7-127 use tags
+    // 1280-1400 and anything larger uses tag 102 with an explicit constructor index.
+    let (tag, any_constructor) = match index {
+        0..=6 => (121 + index, None),
+        7..=127 => (1280 + (index - 7), None),
+        _ => (102, Some(index)),
+    };
+
     PlutusData::Constr(Constr {
-        tag: 121 + index,
-        any_constructor: None,
+        tag,
+        any_constructor,
         fields: MaybeIndefArray::Def(fields),
     })
 }
@@ -84,9 +92,23 @@ impl IntoData for i64 {
 
 impl IntoData for i128 {
     fn as_data(&self) -> PlutusData {
-        let int = Int::try_from(*self).unwrap();
-        PlutusData::BigInt(BigInt::Int(int))
+        match Int::try_from(*self) {
+            Ok(int) => PlutusData::BigInt(BigInt::Int(int)),
+            // beyond the 64-bit range of a CBOR integer: use the bignum encodings, big-endian
+            // magnitude without leading zeros (for negatives the magnitude is -1 - n)
+            Err(_) if *self >= 0 => PlutusData::BigInt(BigInt::BigUInt(BoundedBytes::from(
+                trim_leading_zeros(&(*self as u128).to_be_bytes()),
+            ))),
+            Err(_) => PlutusData::BigInt(BigInt::BigNInt(BoundedBytes::from(
+                trim_leading_zeros(&((-1 - *self) as u128).to_be_bytes()),
+            ))),
+        }
     }
+}
+
+fn trim_leading_zeros(bytes: &[u8]) -> Vec<u8> {
+    let start = bytes.iter().position(|x| *x != 0).unwrap_or(bytes.len());
+    bytes[start..].to_vec()
 }
 
 impl TryIntoData for Vec<tir::Expression> {
